@@ -16,8 +16,12 @@ class Elem:
     def _op(self, name, *others):
         return Elem('op:' + name, None, [self] + list(others))
 
-    def op(self, opname, *a, **k):
-        return lambda *others: Elem('op:generic:' + str(opname), None, [self] + list(others))
+    def op(self, opname, precedence=0, *a, **k):
+        def build(*others):
+            e = Elem('op:generic:' + str(opname), None, [self] + list(others))
+            e.precedence = precedence          # SQLAlchemy brackets an operand exactly when the operand's operator has a lower precedence than this
+            return e
+        return build
 
     def leaves(self):
         if not self.args:
